@@ -51,10 +51,10 @@ from ref import regexsem
 PROPERTY = "C31"
 LEVEL = "model_checking"
 BOUNDS = {
-    "quick": {"expressions": "'' + all 155 ASTs of size <= 3 over 5 atoms (a, b, '.', [a-c], \\*) + 150 seeded samples of sizes 4..6 over 27 atoms",
+    "quick": {"expressions": "'' + all 155 ASTs of size <= 3 over 5 atoms + ~130 repeated-operand compositions of every size<=2 expression with itself (a, b, '.', [a-c], \\*) + 150 seeded samples of sizes 4..6 over 27 atoms",
               "string length (full match)": "0..6, every char symbolic in 0..255",
               "scanner": "string length 4 symbolic (3 for the 4-token vector); every 3rd non-nullable expression, 2/3-token vectors"},
-    "thorough": {"expressions": "'' + all 1075 ASTs of size <= 4 over 5 atoms + 1500 seeded samples of sizes 5..7 over 27 atoms",
+    "thorough": {"expressions": "'' + all 1075 ASTs of size <= 4 over 5 atoms + repeated-operand compositions + 1500 seeded samples of sizes 5..7 over 27 atoms",
                  "string length (full match)": "0..8, every char symbolic in 0..255",
                  "scanner": "string length 5 symbolic (4 for the 4-token vector); every 2nd non-nullable expression, 2/3-token vectors"},
 }
@@ -195,6 +195,18 @@ def expressions(tier, seed):
     out = [["eps"]]
     for s in range(1, exhaustive_to + 1):
         out += all_asts(s, BASE_ATOMS, memo)
+    # repeated-operand shapes (added after seed C31/D): simplification rules of derivative-based constructions
+    # compare operands for EQUALITY (r|r, r* r*, ...), so compose every small expression with itself
+    small = list(all_asts(1, BASE_ATOMS[:3] if tier == "quick" else BASE_ATOMS, memo))
+    small = small + [[u, t] for t in small for u in UNARY]
+    have = {regexsem.render(a) for a in out}
+    for t in small:
+        for a in (["cat", t, t], ["alt", t, t], ["cat", t, ["cat", t, t]], ["cat", ["opt", t], ["opt", t]],
+                  ["cat", ["cat", t, t], ["lit", B]], ["cat", ["grp", ["alt", t, ["star", ["lit", B]]]], ["grp", ["alt", t, ["star", ["lit", B]]]]]):
+            r = regexsem.render(a)
+            if r not in have:
+                have.add(r)
+                out.append(a)
     rng = random.Random(1000003 * seed + (1 if tier == "quick" else 2))
     n_sample = 150 if tier == "quick" else 1500
     sizes = (4, 5, 6) if tier == "quick" else (5, 6, 7)
